@@ -35,6 +35,21 @@ class Parser:
         """
         raise NotImplementedError
 
+    def _array_count(self, count: str, fields: list[Field] | None = None) -> int | Expression:
+        """Turn the size of an array into a number when it is known at definition time.
+
+        A size that mentions an earlier field of the structure is only known while reading, also when a constant of
+        the same name happens to exist.
+        """
+        expression = Expression(self.cstruct, count)
+        if any(field._name in expression.tokens for field in fields or []):
+            return expression
+
+        try:
+            return expression.evaluate()
+        except Exception:
+            return expression
+
 
 class TokenParser(Parser):
     """
@@ -209,7 +224,7 @@ class TokenParser(Parser):
                 tokens.consume()
                 break
 
-            field = self._parse_field(tokens)
+            field = self._parse_field(tokens, fields)
             fields.append(field)
 
         if register:
@@ -256,7 +271,7 @@ class TokenParser(Parser):
         d = ast.literal_eval(m.group(2))
         self.cstruct.lookups[m.group(1)] = {self.cstruct.consts[k]: v for k, v in d.items()}
 
-    def _parse_field(self, tokens: TokenConsumer) -> Field:
+    def _parse_field(self, tokens: TokenConsumer, fields: list[Field] | None = None) -> Field:
         type_ = None
         if tokens.next == self.TOK.IDENTIFIER:
             type_ = self.cstruct.resolve(self._identifier(tokens))
@@ -270,12 +285,14 @@ class TokenParser(Parser):
             raise ParserError(f"line {self._lineno(tokens.next)}: expected name")
         nametok = tokens.consume()
 
-        type_, name, bits = self._parse_field_type(type_, nametok.value)
+        type_, name, bits = self._parse_field_type(type_, nametok.value, fields)
 
         tokens.eol()
         return Field(name.strip(), type_, bits)
 
-    def _parse_field_type(self, type_: type[BaseType], name: str) -> tuple[type[BaseType], str, int | None]:
+    def _parse_field_type(
+        self, type_: type[BaseType], name: str, fields: list[Field] | None = None
+    ) -> tuple[type[BaseType], str, int | None]:
         pattern = self.TOK.patterns[self.TOK.NAME]
         # Dirty trick because the regex expects a ; but we don't want it to be part of the value
         d = pattern.match(name + ";").groupdict()
@@ -292,14 +309,7 @@ class TokenParser(Parser):
             counts = count_expression.split("][") if "][" in count_expression else [count_expression]
 
             for count in reversed(counts):
-                if count == "":
-                    count = None
-                else:
-                    count = Expression(self.cstruct, count)
-                    try:
-                        count = count.evaluate()
-                    except Exception:
-                        pass
+                count = None if count == "" else self._array_count(count, fields)
 
                 if issubclass(type_, BaseArray) and count is None:
                     raise ParserError("Depth required for multi-dimensional array")
@@ -514,14 +524,7 @@ class CStyleParser(Parser):
             # Maybe reimplement lazy type references later
             # _type = TypeReference(self, d['type'])
             if d["count"] is not None:
-                if d["count"] == "":
-                    count = None
-                else:
-                    count = Expression(self.cstruct, d["count"])
-                    try:
-                        count = count.evaluate()
-                    except Exception:
-                        pass
+                count = None if d["count"] == "" else self._array_count(d["count"], result)
 
                 type_ = self.cstruct._make_array(type_, count)
 
